@@ -106,6 +106,11 @@ def _breakdown(rng, n):
 
 
 def _scale(rng, a):
+    if rng.chance(0.15):
+        # the same matrix in other units: an exact power-of-two factor (every quotient and product the solver forms is scaled
+        # exactly, so the answer is the exactly scaled answer); 2**-30 ~ 1e-9, 2**-40 ~ 1e-12
+        s = rng.choice([2.0 ** -24, 2.0 ** -30, 2.0 ** -30, 2.0 ** -40, 2.0 ** 20])
+        return [[v * s for v in row] for row in a]
     if rng.chance(0.3):
         s = rng.choice([0.5, 0.25, 0.125, 2.0])
         return [[v * s for v in row] for row in a]
@@ -537,7 +542,13 @@ def run(script, ctx):
                 ctx.fail("wrong_result", "matrix_inverse: |A A^-1 - I| = %.3g > %.1e * %.3g   A=%r inv=%r" % (worst, TOL, bound, op["A"], res), **sig)
         elif k == "matrix_determinant":
             exact = R.det(R.frm(op["A"]))
-            if not isinstance(res, float) or res != res or abs(R.fr(res) - exact) > F(1, 10 ** 9) * max(abs(exact), F(1, 10 ** 6)):
+            had = F(1)
+            for row in R.frm(op["A"]):
+                had *= sum(abs(v) for v in row)
+            floor = min(F(1, 10 ** 6), F(1, 10 ** 6) * had)      # relative to the size of the entries (Hadamard-type bound >= |det|)
+            if floor < F(1, 10 ** 6):
+                ctx.probe("determinant_of_small_magnitude_matrix")
+            if not isinstance(res, float) or res != res or abs(R.fr(res) - exact) > F(1, 10 ** 9) * max(abs(exact), floor):
                 ctx.fail("wrong_result", "matrix_determinant = %r, exact %s (%.17g)   A=%r" % (res, exact, float(exact), op["A"]), **sig)
         elif k == "matrix_pivot":
             if op["sign"]:
